@@ -37,23 +37,28 @@ pub enum Act {
     CloneAndContinue,
     Preimage(u8, usize),
     Sign(u8, usize),
+    /// replace the (still empty) object by one obtained through another constructor: 0 = parsed from a non-canonical
+    /// wire encoding, 1 = JSON round trip, 2 = compact (CBOR) round trip, 3 = from_hex
+    Load(u8),
 }
 
-/// Input operands: 0 and 1 differ in everything; 2 = operand 0 with another sequence (same outpoint);
-/// 3 = operand 0 with another vout (same txid).
+/// Input operands: 0 and 1 differ in everything; 2 = operand 0 with another sequence only; 3 = another vout only (same txid);
+/// 4 = another unlocking script only; 5 = another sequence AND another unlocking script (same outpoint).
 fn operand_in(k: u8) -> TxIn {
-    let (t, v, q) = match k {
-        0 => (0u8, 0u8, 0u8),
-        1 => (1, 1, 1),
-        2 => (0, 0, 1),
-        3 => (0, 1, 0),
-        n => (n, n, n),
+    let (t, v, q, sc) = match k {
+        0 => (0u8, 0u8, 0u8, 0u8),
+        1 => (1, 1, 1, 1),
+        2 => (0, 0, 1, 0),
+        3 => (0, 1, 0, 0),
+        4 => (0, 0, 0, 2),
+        5 => (0, 0, 1, 3),
+        n => (n, n, n, n),
     };
     let mut txid = [0u8; 32];
     for (i, b) in txid.iter_mut().enumerate() {
         *b = (i as u8).wrapping_mul(5).wrapping_add(t.wrapping_mul(37)).wrapping_add(1);
     }
-    let mut i = TxIn::new(&txid, 0x0100 + v as u32, &Script::from_bytes(&[0x51 + k]).unwrap(), Some(0x01020300 + q as u32));
+    let mut i = TxIn::new(&txid, 0x0100 + v as u32, &Script::from_bytes(&[0x51 + sc]).unwrap(), Some(0x01020300 + q as u32));
     if k == 1 || k == 3 {
         // extended annotations are not part of the serialisation: they must never influence a sighash
         i.set_satoshis(0x7777);
@@ -166,6 +171,37 @@ fn act_kind(a: &Act) -> &'static str {
         Act::CloneAndContinue => "clone",
         Act::Preimage(..) => "sighash_preimage",
         Act::Sign(..) => "sign",
+        Act::Load(_) => "load",
+    }
+}
+
+/// A wire encoding the parser accepts but would not produce: the unlocking-script length as a 3-byte compact size and an
+/// OP_RETURN output whose trailing push declares more bytes than remain (tolerated after OP_RETURN).
+fn noncanonical_bytes() -> Vec<u8> {
+    let mut one_in = Transaction::new(1, 1);
+    one_in.add_input(&operand_in(0));
+    let c = one_in.to_bytes().unwrap_or_default(); // version(4) count(1) outpoint(36) len(1) script(1) sequence(4) n_out(1) locktime(4)
+    let mut b = c[..41].to_vec();
+    b.extend_from_slice(&[0xfd, 0x01, 0x00]);
+    b.extend_from_slice(&c[42..47]);
+    b.push(1);
+    b.extend_from_slice(&0x0a0b0c00u64.to_le_bytes());
+    let script = [0x00u8, 0x6a, 0x48, 0x45, 0x4c, 0x4c, 0x4f];
+    b.push(script.len() as u8);
+    b.extend_from_slice(&script);
+    b.extend_from_slice(&c[48..52]);
+    b
+}
+
+fn loaded(k: u8) -> Option<Transaction> {
+    let mut base = Transaction::new(1, 1);
+    base.add_input(&operand_in(1));
+    base.add_output(&operand_out(0));
+    match k {
+        0 => Transaction::from_bytes(&noncanonical_bytes()).ok(),
+        1 => Transaction::from_json_string(&base.to_json_string().ok()?).ok(),
+        2 => Transaction::from_compact_bytes(&base.to_compact_bytes().ok()?).ok(),
+        _ => Transaction::from_hex(&base.to_hex().ok()?).ok(),
     }
 }
 
@@ -196,6 +232,10 @@ fn apply(tx: &mut Transaction, a: &Act) -> Option<String> {
             let c = tx.clone();
             *tx = c;
         }
+        Act::Load(k) => match loaded(*k) {
+            Some(t) => *tx = t,
+            None => return Some(format!("C04/action=load/source={}/kind=constructor-refuses", k)),
+        },
         Act::Preimage(flag, idx) => {
             let sh = SigHash::try_from(*flag).ok()?;
             let got = tx.sighash_preimage(sh, *idx, &subscript(), VALUE).map_err(|e| e.to_string());
@@ -268,6 +308,11 @@ impl Model for TxModel {
             return;
         }
         let (ni, no) = (s.tx.get_ninputs(), s.tx.get_noutputs());
+        if ni == 0 && no == 0 {
+            for k in 0..4 {
+                out.push(Act::Load(k));
+            }
+        }
         // ordered simplest-first
         if ni < self.max_n {
             for k in 0..self.operands {
@@ -352,7 +397,7 @@ impl Model for TxModel {
 fn model(tier: Tier, suppressed: BTreeSet<String>) -> TxModel {
     TxModel {
         max_n: if tier.is_thorough() { 3 } else { 2 },
-        operands: 4,
+        operands: 6,
         ints: if tier.is_thorough() { vec![1, 2, 0x01020304] } else { vec![1, 2] },
         suppressed,
         observer_transitions: AtomicU64::new(0),
@@ -435,7 +480,7 @@ fn run(ctx: &Ctx) -> Report {
     r.acc.bump("observer_transitions_compared_with_fresh_copy", stats.observers);
     r.acc.bump("unique_states_second_run", again.unique as u64);
     r.acc.sample(0, || json!({"history": [Act::AddIn(0), Act::AddOut(1), Act::Preimage(0x41, 0), Act::SetOut(0, 0), Act::Preimage(0x41, 0)], "note": "example of an explored history: fill all cache slots, replace an output, observe again"}));
-    r.bounds = json!({"max_inputs": if ctx.tier.is_thorough() {3} else {2}, "max_outputs": if ctx.tier.is_thorough() {3} else {2}, "operands": "4 inputs (two unrelated, one differing only in sequence, one only in vout) and 4 outputs (two unrelated, one differing only in value, one only in script)", "observer_flags": OBS_FLAGS.iter().map(|f| format!("0x{:02x}", f)).collect::<Vec<_>>(), "search": "fixpoint (all reachable states)", "history_length": "unbounded within the finite graph"});
+    r.bounds = json!({"max_inputs": if ctx.tier.is_thorough() {3} else {2}, "max_outputs": if ctx.tier.is_thorough() {3} else {2}, "operands": "6 inputs (two unrelated; four that differ from operand 0 in sequence only / vout only / unlocking script only / sequence and script) and 6 outputs (two unrelated, one differing only in value, one only in script, two more unrelated)", "alternative_constructors": "from the empty object: parsed from a non-canonical wire encoding, JSON round trip, compact round trip, from_hex", "observer_flags": OBS_FLAGS.iter().map(|f| format!("0x{:02x}", f)).collect::<Vec<_>>(), "search": "fixpoint (all reachable states)", "history_length": "unbounded within the finite graph"});
     r.spaces.push(json!({"space": "reachable-graph", "unique_states": stats.unique, "generated_states": stats.generated, "max_depth": stats.depth, "complete": true}));
     r
 }
